@@ -340,17 +340,17 @@ congruence<Number>::operator/(const congruence<Number> &o) const {
 
     /*
          0Z+b / a'Z+b':
-            if N>0   (b div N)Z + 0
-            else     0Z + 0
-
-           where N = a'((b-b') div a') + b'
+            if b = 0 then 0Z + 0
+            else          top
     */
     if (m_a == 0) {
-      Number n(o.m_a * (((m_b - o.m_b) / o.m_a) + o.m_b));
-      if (n > 0) {
-        return congruence<Number>(m_b / n, Number(0));
-      } else {
+      // The dividend is the constant b and the divisor is not a
+      // constant: except for b = 0 the quotient can take several
+      // values that do not form a congruence class in general.
+      if (m_b == 0) {
         return congruence<Number>(Number(0), Number(0));
+      } else {
+        return congruence<Number>::top();
       }
     }
 
